@@ -3,6 +3,13 @@ from .. import core
 from ..monitors import parse as MP
 from ..workloads import text as WT
 
+MANIFEST = dict(
+    technique='runtime monitor on Tokenizer.tokenize vs independent reference tokenizer + LINE-event step budget; soup/mutation workload',
+    text='Each tokenize() call on tens of thousands of hostile strings (both padding modes) is compared token by token with a reference tokenizer, and checked for losslessness, the single end marker, ValueError on foreign characters and a deterministic step budget. Held on the strings observed.',
+    note='Trusts the reference tokenizer (25 lines, DESIGN.md Appendix A) and sys.monitoring line counting.',
+    ref='DESIGN.md 3/C11',
+)
+
 RULE = (
     "W5 token soups over the tokenizer alphabet (+ foreign/Unicode/control characters), mutations of corpus and "
     "grammar-generated strings, long digit/letter/space runs, letter runs around 'sgn'; every string tokenized in both "
